@@ -10,7 +10,7 @@
 (* Judged along the way (owner in brackets):                               *)
 (*   event_order, quit_forgotten, exit_without_quit, terminal_not_restored,*)
 (*   left_without_reason                                          [C17]    *)
-(*   disconnect_keys, retry_lost_aircraft                         [C16]    *)
+(*   disconnect_keys, retry_lost_aircraft, gave_up_reconnecting   [C16]    *)
 (*   action_removed, added_flag, draw_added                       [C12]    *)
 (*                                                                         *)
 (* Not logged by the hook: keys pressed while the client waits for a       *)
@@ -65,11 +65,14 @@ Step(ev) ==
             IF s.pc # "read" THEN Bad
             ELSE Good(Disconnect(s), IF SeqSet(ev.keys) = s.tracked THEN {} ELSE {"disconnect_keys"})
        [] ev.ev = "quit" ->
+            \* out of the reconnect wait only the operator's quit leads here; when the driver never sent one, the client gave
+            \* up reconnecting by itself (the step is taken all the same so that the rest of the session is judged)
             LET b == IF s.pc = "bottom" THEN <<Bottom(s)>>
-                     ELSE IF s.pc = "wait" /\ ~s.first /\ opts.quit_sent THEN <<Bottom(WaitQuit(s))>>
+                     ELSE IF s.pc = "wait" /\ ~s.first THEN <<Bottom(WaitQuit(s))>>
                      ELSE <<>>
             IN IF b = <<>> THEN Bad
-               ELSE Good(b[1], IF LeftForAReason(b[1]) THEN {} ELSE {"left_without_reason"})
+               ELSE Good(b[1], (IF LeftForAReason(b[1]) THEN {} ELSE {"left_without_reason"})
+                               \cup (IF s.pc = "wait" /\ ~opts.quit_sent THEN {"gave_up_reconnecting"} ELSE {}))
        [] ev.ev = "session_end" ->
             IF ev.panic = 1 \/ ev.alive = 1 \/ ev.exit # 0 THEN Good(s, {})          \* judged by Trace_UI
             ELSE LET b == IF s.pc = "restore" THEN <<Restore(s)>>
@@ -80,7 +83,7 @@ Step(ev) ==
                     ELSE Good(b[1], IF b[1].term = seen THEN {} ELSE {"terminal_not_restored"})
        [] OTHER -> Good(m, {})
 
-Owner(f) == CASE f \in {"disconnect_keys", "retry_lost_aircraft"} -> "C16"
+Owner(f) == CASE f \in {"disconnect_keys", "retry_lost_aircraft", "gave_up_reconnecting"} -> "C16"
               [] f \in {"action_removed", "added_flag", "draw_added"} -> "C12"
               [] OTHER -> "C17"
 
